@@ -270,3 +270,142 @@ Example C17_impl_case_in_coq :
               [(-0x0.00000000007e8p-1022)%float; (-0x1.4d8ed4b27a553p+5)%float; (-0x1.ca94d081871e4p+4)%float; (-0x1.6571a24ad16e1p+5)%float; (-0x1.0b3e2710802c5p+5)%float; (-0x1.a1f01095a6d37p+2)%float; (-0x1.bd7c5b9ab6edcp+3)%float; (-0x1.cde9efdec8b3bp+2)%float; (-0x1.6481720800be7p+5)%float; (-0x1.4a868a566a550p+5)%float; (-0x1.0302c5c6fdccap+5)%float; (-0x1.5a1b21c129063p+4)%float; (-0x1.2437984b70a24p+5)%float; (-0x1.c2df5e60b636bp+3)%float; (-0x1.46ab65faec46bp+5)%float] 0 7
   = Ok ((0x1.719531514edd4p+20)%float, [(0x1.0f63dc4435257p+13)%float; (0x1.62d62927bfbadp+0)%float; 0%float; (0x1.a5923292ef628p+12)%float; 0%float; (0x1.2734eea90c157p+1)%float; 0%float; (0x1.e1d0cd3e06409p+8)%float; 0%float; 0%float; 0%float; 0%float; 0%float; 0%float; 0%float]).
 Proof. vm_compute. reflexivity. Qed.
+
+(* ===== scale covariance for binary64 under an explicit, checkable no-overflow/no-underflow condition — imported from Signal/GreedyScale_pins.v ===== *)
+(* C17 — scale covariance FOR BINARY64 (pins in the Props style; to be imported by Props/C17.v).
+
+   "multiplying every calibrated sample of an event by a power of two multiplies every recovered
+    amplitude by exactly that factor while changing no time"
+
+   is proved here for the bit-exact binary64 model that the differential compares with the
+   implementation (nn_greedy_f / ls_deconv_f of Signal/Greedy.v), under an explicit and executable
+   no-overflow / no-underflow side condition on the values THE RUN ACTUALLY PRODUCES:
+
+     nn_safe k signal response off la   /   ls_safe k signal response offs las     (Signal/GreedyScale.v)
+
+   re-run the algorithm on the UNSCALED waveform and test, for every arithmetic operation performed
+   (s / r, f64::min, v * r, s - v*r, x.powi(2), acc + x^2, r < best), that its operands and its result
+   are either a zero or finite with magnitude in [2^(K-1021), 2^(1023-K)], K = |k| (K = 2|k| for the
+   squared residual), that a product / quotient is a zero only when a factor / the dividend is
+   (no underflow to zero), that the response samples used are finite (non-zero as divisors), and
+   |k| <= 500.  Under that predicate every control decision (window skips, argmin over the
+   offset x look-ahead grid, hence every TIME) is unchanged, every amplitude is multiplied by
+   c = 2^k bit for bit, and the squared residual by c^2.
+
+   The op-level facts are proved through Flocq (Bmult/Bdiv/Bplus/Bminus_correct: the scaled exact
+   value rounds to the scaled rounded value because the canonical exponent shifts by k in the
+   normal range) and transported to Coq's primitive floats with the standard FloatAxioms
+   (Flocq.IEEE754.PrimFloat: Prim2B, mul_equiv, ...). *)
+From AG Require Import Base.Prelude Base.Res Signal.Greedy Signal.GreedyScale Signal.GreedyScale_proofs.
+From Coq Require Import Floats.
+
+(* the scaling that the harness relation rel17scale performs: x * c and r * c * c with c = 2f64.powi(k) *)
+Example C17_fscale_is_mul_pow2 : forall k x, fscale k x = (x * pow2 k)%float /\ fscale2 k x = (x * pow2 k * pow2 k)%float.
+Proof. intros. split; reflexivity. Qed.
+(* pow2 k is the binary64 number 2^k (general statement: pow2_spec in GreedyScale_proofs.v, through Flocq) *)
+Example C17_pow2_values : (pow2 10 = 1024 /\ pow2 (-10) = 0x1p-10 /\ pow2 0 = 1 /\ pow2 (-20) = Z.ldexp 1 (-20) /\ pow2 20 = Z.ldexp 1 20)%float.
+Proof. repeat split; vm_compute; reflexivity. Qed.
+
+(* one sweep: outputs scaled by c, squared residual by c^2, same control flow *)
+Theorem C17_nn_greedy_scale_f64 : forall (k : Z) (signal response : list float) (off la : nat),
+  nn_safe k signal response off la = true ->
+  nn_greedy_f (map (fscale k) signal) response off la =
+  res_map (sc_out float (fscale k) (fscale2 k)) (nn_greedy_f signal response off la).
+Proof. exact nn_greedy_scale_f64_lemma. Qed.
+Print Assumptions C17_nn_greedy_scale_f64.
+
+(* the whole selection ls_deconvolution (the pad and wire entry points are instances):
+   the same grid point wins, every amplitude is scaled exactly *)
+Theorem C17_ls_deconv_scale_f64 : forall (k : Z) (signal response : list float) (offs las : list nat),
+  ls_safe k signal response offs las = true ->
+  ls_deconv_f (map (fscale k) signal) response offs las =
+  res_map (map (fscale k)) (ls_deconv_f signal response offs las).
+Proof. exact ls_deconv_scale_f64_lemma. Qed.
+Print Assumptions C17_ls_deconv_scale_f64.
+
+Theorem C17_pad_deconv_scale_f64 : forall (k : Z) (signal pad_response : list float),
+  ls_safe k signal pad_response (range_incl 3 5) (range_incl 7 12) = true ->
+  pad_deconv_f (map (fscale k) signal) pad_response = res_map (map (fscale k)) (pad_deconv_f signal pad_response).
+Proof. intros. apply ls_deconv_scale_f64_lemma. assumption. Qed.
+Print Assumptions C17_pad_deconv_scale_f64.
+
+Theorem C17_wire_deconv_scale_f64 : forall (k : Z) (signal wire_response : list float),
+  ls_safe k signal wire_response (range_incl 0 1) (range_incl 3 12) = true ->
+  wire_deconv_f (map (fscale k) signal) wire_response = res_map (map (fscale k)) (wire_deconv_f signal wire_response).
+Proof. intros. apply ls_deconv_scale_f64_lemma. assumption. Qed.
+Print Assumptions C17_wire_deconv_scale_f64.
+
+(* the op-level binary64 laws themselves (each under its boolean test), k with |k| <= 500 *)
+Theorem C17_f64_scale_laws : forall k : Z, (Z.abs k <= kmax)%Z ->
+  let K := Z.abs k in let K2 := (2 * Z.abs k)%Z in let sc := fscale k in let sc2 := fscale2 k in
+  (forall a b, f_ok_sub K a b = true -> (sc a - sc b = sc (a - b))%float) /\
+  (forall v r, f_ok_mul K v r = true -> (sc v * r = sc (v * r))%float) /\
+  (forall s r, f_ok_div K s r = true -> (sc s / r = sc (s / r))%float) /\
+  (forall a b, okv K a = true -> okv K b = true -> f_min (sc a) (sc b) = sc (f_min a b)) /\
+  (forall x, okv K x = true -> f_nonneg (sc x) = f_nonneg x) /\
+  (forall x, f_ok_sq k x = true -> (sc x * sc x = sc2 (x * x))%float) /\
+  (forall a b, f_ok_add K2 a b = true -> (sc2 a + sc2 b = sc2 (a + b))%float) /\
+  (forall a b, f_ok_lt2 K2 a b = true -> (sc2 a <? sc2 b = (a <? b))%float) /\
+  sc 0%float = 0%float /\ sc2 neg_zero = neg_zero /\ sc2 infinity = infinity.
+Proof.
+  intros k Hk. cbv zeta.
+  exact (conj (law_sub k Hk) (conj (law_mul k Hk) (conj (law_div k Hk) (conj (law_min k Hk) (conj (law_nonneg k Hk)
+        (conj (law_sq k Hk) (conj (law_add2 k Hk) (conj (law_lt2 k Hk) (conj (law_zero k Hk) (conj (law_szero k Hk) (law_inf k Hk))))))))))).
+Qed.
+Print Assumptions C17_f64_scale_laws.
+
+(* ---- the hypotheses are satisfiable on a non-trivial concrete binary64 waveform, and the conclusion is
+        what the implementation printed.  Two response-shaped pulses (amplitudes 80 and 55.5 at samples 2
+        and 6) plus noise, 14 samples, on a 5-sample response; grid offsets 0..=1 x look-aheads 2..=3.
+        Case lines (corpus/C17/scale_example.case, compared with the implementation on every run):
+        the waveform, the waveform * 2^10, the waveform * 2^-10.  The implementation printed
+          ls=14:1=3fc1111111111111,2=4053e93e93e93e94,3=3fbc71c71c71c762,5=3fbee8dd7cc6ba28,6=404b962bbdc18c77,7=3fbc985d6f15813b
+          ls=14:1=4061111111111111,2=40f3e93e93e93e94,3=405c71c71c71c762,5=405ee8dd7cc6ba28,6=40eb962bbdc18c77,7=405c985d6f15813b
+          ls=14:1=3f21111111111111,2=3fb3e93e93e93e94,3=3f1c71c71c71c762,5=3f1ee8dd7cc6ba28,6=3fab962bbdc18c77,7=3f1c985d6f15813b
+        (same mantissas, exponents shifted by +10 / -10, same positions). ---- *)
+Local Open Scope float_scope.
+Definition ex_resp : list float :=
+  [-0x1.8p+0; -0x1.ap+1; -0x1p+1; -0x1.8p-1; -0x1.999999999999ap-4].
+Definition ex_sig : list float :=
+  [0x1.3333333333333p-2; -0x1.999999999999ap-3; -0x1.df9999999999ap+6; -0x1.0466666666666p+8; -0x1.3f8p+7;
+   -0x1.e133333333333p+5; -0x1.6cccccccccccdp+6; -0x1.695999999999ap+7; -0x1.bb33333333333p+6; -0x1.4dccccccccccdp+5;
+   -0x1.4cccccccccccep+2; -0x1p-2; 0x1.3333333333333p-3; -0x1.999999999999ap-5].
+Definition ex_out : list float :=
+  [0; 0x1.1111111111111p-3; 0x1.3e93e93e93e94p+6; 0x1.c71c71c71c762p-4; 0; 0x1.ee8dd7cc6ba28p-4; 0x1.b962bbdc18c77p+5;
+   0x1.c985d6f15813bp-4; 0; 0; 0; 0; 0; 0].
+Definition ex_out_up : list float :=
+  [0; 0x1.1111111111111p+7; 0x1.3e93e93e93e94p+16; 0x1.c71c71c71c762p+6; 0; 0x1.ee8dd7cc6ba28p+6; 0x1.b962bbdc18c77p+15;
+   0x1.c985d6f15813bp+6; 0; 0; 0; 0; 0; 0].
+Definition ex_out_down : list float :=
+  [0; 0x1.1111111111111p-13; 0x1.3e93e93e93e94p-4; 0x1.c71c71c71c762p-14; 0; 0x1.ee8dd7cc6ba28p-14; 0x1.b962bbdc18c77p-5;
+   0x1.c985d6f15813bp-14; 0; 0; 0; 0; 0; 0].
+
+Example C17_scale_example_safe :
+  ls_safe 10 ex_sig ex_resp [0; 1]%nat [2; 3]%nat = true /\ ls_safe (-10) ex_sig ex_resp [0; 1]%nat [2; 3]%nat = true /\
+  nn_safe 10 ex_sig ex_resp 1 3 = true /\ nn_safe (-10) ex_sig ex_resp 1 3 = true.
+Proof. repeat split; vm_compute; reflexivity. Qed.
+Example C17_scale_example_unscaled : ls_deconv_f ex_sig ex_resp [0; 1]%nat [2; 3]%nat = Ok ex_out.
+Proof. vm_compute. reflexivity. Qed.
+(* the conclusion of the theorem, obtained FROM the theorem, equals what the implementation printed *)
+Example C17_scale_example_up : ls_deconv_f (map (fscale 10) ex_sig) ex_resp [0; 1]%nat [2; 3]%nat = Ok ex_out_up.
+Proof.
+  rewrite (C17_ls_deconv_scale_f64 10 ex_sig ex_resp [0; 1]%nat [2; 3]%nat (proj1 C17_scale_example_safe)).
+  rewrite C17_scale_example_unscaled. vm_compute. reflexivity.
+Qed.
+Example C17_scale_example_down : ls_deconv_f (map (fscale (-10)) ex_sig) ex_resp [0; 1]%nat [2; 3]%nat = Ok ex_out_down.
+Proof.
+  rewrite (C17_ls_deconv_scale_f64 (-10) ex_sig ex_resp [0; 1]%nat [2; 3]%nat (proj1 (proj2 C17_scale_example_safe))).
+  rewrite C17_scale_example_unscaled. vm_compute. reflexivity.
+Qed.
+(* one sweep: residual 0x1.e7cef2dac6ac5p+13 becomes 0x1.e7cef2dac6ac5p+33 (printed: 40ce7cef2dac6ac5 -> 420e7cef2dac6ac5) *)
+Example C17_scale_example_residual :
+  res_map fst (nn_greedy_f ex_sig ex_resp 1 3) = Ok 0x1.e7cef2dac6ac5p+13 /\
+  res_map fst (nn_greedy_f (map (fscale 10) ex_sig) ex_resp 1 3) = Ok 0x1.e7cef2dac6ac5p+33.
+Proof.
+  rewrite (C17_nn_greedy_scale_f64 10 ex_sig ex_resp 1 3 (proj1 (proj2 (proj2 C17_scale_example_safe)))).
+  split; vm_compute; reflexivity.
+Qed.
+(* the predicate is not vacuous the other way either: it rejects a waveform whose scaled image overflows *)
+Example C17_scale_example_rejects : nn_safe 500 [0x1p+600; -0x1p+0; -0x1p+0] ex_resp 0 2 = false.
+Proof. vm_compute. reflexivity. Qed.
+
